@@ -288,7 +288,7 @@ the harness sweeps every language tag at a PM instant on each run -/
 theorem finding_ampm_split_unguarded :
     format [⟨"Positive", [⟨"CurrencyLanguage", bs "[$-9999]", [⟨"LanguageInfo", bs "9999", true⟩]⟩, ⟨"DateTimes", bs "AM/PM", []⟩,
         ⟨"DateTimes", bs "h", []⟩]⟩] ['1'] true (bigLayer "1" "100" 1)
-      { noDate with hour1900 := 13, loc0 := fun _ => ⟨true, bs "noslash", [], [], [], [], [], false⟩ } = .panic := by
+      { noDate with t0 := ⟨1900, 1, 1, 13, 0, 0, 0, 0⟩, loc0 := fun _ => ⟨true, bs "noslash", [], [], [], [], [], false⟩ } = .panic := by
   decide +kernel
 
 end XlModel.Props.C10
